@@ -57,12 +57,25 @@ def check(rep, an, tier):
         F.qty(rep, res, entry, allow=allow, subs=("mismatch", "literal"))
         R.rule_type_errors(rep, res, "SHAPE", "R-SHAPE", entry)
         R.rule_purity(rep, res, entry)
+        R.rule_index_space(rep, res, entry)
         CC.rank_of_extents(rep, res, entry)
         R.rule_dtype(rep, res, entry)
         R.rule_iterator_reuse(rep, res, entry)
         R.rule_no_global_state(rep, res, entry)
         from .C15 import tolerances
         tolerances(rep, res, entry)
+        # the gate and the enumeration agree: the enumeration accepts a basic solution by EXACT comparison with the bounds, so a gate
+        # that is widened by an explicit tolerance lets targets through for which no basic solution is accepted
+        mt = res.events("membership_tolerance")
+        for ev in mt:
+            rep.violated("R-VALUE", "the in-gamut gate is not wider than what the enumeration accepts", where=ev.loc, construct=ev.text(), entry=entry,
+                         config=res.config,
+                         msg="the inside-simplex test is given an explicit tolerance: targets just outside the gamut pass the gate, but every "
+                             "basic solution is then rejected by the exact bounds test of the enumeration — the call returns min = ub, max = lb "
+                             "(min > max, no reproducing solution) instead of raising / fitting")
+        if not mt:
+            rep.holds("R-VALUE", "the in-gamut gate is not wider than what the enumeration accepts", where=res.fn.loc(), construct="membership tests of range_of_solutions",
+                      entry=entry, config=res.config)
         # error dispatch
         # the out-of-gamut error: a raise in the entry (or its private helpers) that is guarded by the membership result — identified
         # by what it depends on, not by its message
@@ -84,6 +97,9 @@ def check(rep, an, tier):
                       construct=f"error={cfg['error']!r}", entry=entry, config=res.config)
             rep.check("R-DISPATCH", f"error='{cfg['error']}' warns iff 'warn'", bool(warns) == (cfg["error"] == "warn"), where=res.fn.loc(),
                       construct=f"warning for error={cfg['error']!r}", entry=entry, config=res.config)
+            # the best fit returned for out-of-gamut targets lies within the bounds: both bound constraints exist on every path
+            F.must_constraint(rep, res, entry, "lb", "lower bound (best-fit fallback)", local_only=True)
+            F.must_constraint(rep, res, entry, "ub", "upper bound (best-fit fallback)", local_only=True)
             for ev in fits:
                 fn = ev.d["callee"]
                 bound = dict(ev.d["kws"])
@@ -146,6 +162,7 @@ def check(rep, an, tier):
                 rep.check("R-FORWARD", f"{p} → range_of_solutions({p}=)", v is not None and p in v.flat().data, where=ev.loc,
                           construct=f"range_of_solutions(… {p}= …) in {ev.fn.name}", entry=ent, config=res.config)
         R.rule_purity(rep, res, ent)
+        R.rule_index_space(rep, res, ent)
         R.rule_effect_free(rep, res, ent, reg=_reg(an))
         F.qty(rep, res, ent, allow=allow, subs=("mismatch", "literal"))
     rep.require("R-QTY", 20)
